@@ -693,9 +693,34 @@ func c18Rejoin(w *W, mn *MsgNet, addr, kind string, obj ioObj) {
 			}
 			w.Probe("fail-no-peers-follows-peer-set")
 		}
+		// the option is switched off again while no peer is connected: from
+		// now on a Send waits (or queues) like on any socket - "no peers" is
+		// not an answer any more
+		if err := obj.SetOption(mangos.OptionFailNoPeers, false); err != nil {
+			w.Failf("C19/option-refused", "%s: SetOption(FailNoPeers, false): %v", kind, err)
+			return
+		}
+		if v, err := obj.GetOption(mangos.OptionFailNoPeers); err != nil || v != false {
+			w.Failf("C19/get-differs", "%s: FailNoPeers set to false, GetOption returns (%v, %v)", kind, v, err)
+			return
+		}
+		_ = obj.SetOption(mangos.OptionSendDeadline, 3*time.Millisecond)
+		for i := 0; i < 6; i++ {
+			sc := w.Do(fmt.Sprintf("Send(FailNoPeers off, no peer)#%d", i), func() (interface{}, error) { return nil, obj.Send([]byte("q")) })
+			sc.Wait(20 * time.Millisecond)
+			w.Settle()
+			if sc.Returned() && sc.Err == mangos.ErrNoPeers {
+				w.Failf("C19/option-not-effective:FailNoPeers", "%s: FailNoPeers was switched off (and reads back false) after the last peer had left; Send %d still fails with the no-peers error", kind, i)
+				return
+			}
+		}
+		w.Probe("fail-no-peers-switched-off-without-peers")
 	}
 }
 
 func init() {
 	register(&Scenario{Name: "deadlines", Prop: "C18", Horizon: 12 * time.Hour, Run: c18Run})
+	// C19: deadlines, best effort and fail-no-peers "take effect as documented",
+	// also when they are changed or switched off again later
+	register(&Scenario{Name: "deadline-and-no-peers-options-effective", Prop: "C19", Horizon: 12 * time.Hour, Weight: 3, Run: c18Run})
 }
